@@ -129,7 +129,7 @@ CSeek(m, k, org, end) ==
 
 ----------------------------------------------------------------------------
 (* declarative meanings, stated independently of the operators used by the actions *)
-InRange(mm, k, o, e) == k \in KeysOf(mm) /\ o <= k /\ k < e
+InRange(mm, k, o, e) == k \in 1..Len(mm) /\ mm[k] # 0 /\ o <= k /\ k < e   \* (k \in KeysOf(mm), spelled out: TLC would enumerate the set)
 
 \* a batch: listed keys get their new value, all other keys keep theirs
 BatchMeaning(mm, b, mm2) ==
